@@ -47,7 +47,33 @@ func extra2C03(c *Ctx) {
 				}
 			}
 		}
+		// the dual form: a set of digests to verify that only grows is monotone by construction
+		var needMap types.Object
 		if skipMap == nil {
+			for _, v := range g.FindCalls("server.verifyBlob") {
+				l := loopAround(f, v.Node)
+				rs, isR := l.(*ast.RangeStmt)
+				if l == nil || !isR {
+					continue
+				}
+				vid, _ := rs.Value.(*ast.Ident)
+				if vid == nil {
+					continue
+				}
+				for _, br := range g.Find(func(n ast.Node) bool {
+					b, ok := n.(*ast.BranchStmt)
+					return ok && b.Tok == token.CONTINUE && within(l, b)
+				}) {
+					if m := needSetOf(g, br.Loc, info.Defs[vid]); m != nil {
+						needMap = m
+					}
+				}
+			}
+		}
+		if needMap != nil {
+			ok, why := needSetDiscipline(g, needMap, g.FindCalls("server.downloadBlob"))
+			c.Check("C03-R11", f.Key()+" must-verify set gains every digest this pull downloaded and never loses one", c.Pos(f.Decl), ok, why)
+		} else if skipMap == nil {
 			c.Undecided("C03-R11", "anchor:skip-verification map in PullModel", "-", "anchor lost: no `if skip[digest] { continue }` in the verification loop")
 		} else {
 			n := 0
@@ -321,8 +347,8 @@ func extra2C04(c *Ctx) {
 							}
 						case *ast.BinaryExpr:
 							if y.Op == token.ADD {
-								if s, isS := core.ConstString(info, y.X); isS && s == "sha256:" && len(core.CallsTo(info, y.Y, false, "strings.ToLower")) == 1 {
-									ok = true
+								if s, isS := core.ConstString(info, y.X); isS && s == "sha256:" && (len(core.CallsTo(info, y.Y, false, "strings.ToLower")) == 1 || len(core.CallsTo(info, y.Y, false, "encoding/hex.EncodeToString")) == 1) {
+									ok = true // hex.EncodeToString produces lower-case digits
 								}
 							}
 						}
@@ -684,7 +710,18 @@ func ruleLinkScanComplete(c *Ctx, rule string) {
 				case *ast.FuncLit:
 					return false
 				case *ast.BranchStmt:
-					if s.Tok != token.CONTINUE || true {
+					// a break on the EqualFold match edge is the match exit in another spelling
+					onMatch := false
+					if s.Tok == token.BREAK && s.Label == nil {
+						for _, a := range g.AtomsAt(g.Locate(s)) {
+							if fc, isC := ast.Unparen(a.Expr).(*ast.CallExpr); isC && a.Val && core.CalleeName(info, fc) == "strings.EqualFold" && len(fc.Args) == 2 &&
+								linkObj != nil && (core.UsesObj(info, fc.Args[0], linkObj) || core.UsesObj(info, fc.Args[1], linkObj)) {
+								onMatch = true
+								sawFold = true
+							}
+						}
+					}
+					if !onMatch {
 						bad = s.Tok.String() + " at " + c.Pos(s)
 					}
 				case *ast.ReturnStmt:
@@ -1583,6 +1620,74 @@ func extra3C18(c *Ctx) {
 			}
 			return true
 		})
+		if !(clamp && stored) {
+			// the other spelling: minP: H(minP) with a helper whose every return is a constant <= 1 or its
+			// parameter on an edge that excludes values above 1
+			ast.Inspect(f.Body, func(n ast.Node) bool {
+				kv, ok := n.(*ast.KeyValueExpr)
+				if !ok {
+					return true
+				}
+				k, isID := kv.Key.(*ast.Ident)
+				call, isC := ast.Unparen(kv.Value).(*ast.CallExpr)
+				if !isID || k.Name != "minP" || !isC || len(call.Args) != 1 || !isIdentOf(info, call.Args[0], mp) {
+					return true
+				}
+				fo, _ := core.Callee(info, call).(*types.Func)
+				if fo == nil {
+					return true
+				}
+				for _, hf := range c.P.FuncsOf("sample") {
+					if hf.Obj == nil || hf.Obj.FullName() != fo.FullName() {
+						continue
+					}
+					hg := c.G(hf)
+					hp := paramAt(hf, 0)
+					all, nret := true, 0
+					for _, ex := range hg.Returns() {
+						if ex.Return == nil || len(ex.Return.Results) != 1 {
+							all = false
+							continue
+						}
+						nret++
+						r := ex.Return.Results[0]
+						if v, isV := core.ConstFloat(hf.Info(), r); isV {
+							if v > 1 {
+								all = false
+							}
+							continue
+						}
+						okRet := false
+						if isIdentOf(hf.Info(), r, hp) {
+							for _, at := range hg.AtomsAt(ex.Loc) {
+								be, isB := ast.Unparen(at.Expr).(*ast.BinaryExpr)
+								if !isB {
+									continue
+								}
+								_, y, op, okO := core.Orient(be, func(e ast.Expr) bool { return isIdentOf(hf.Info(), e, hp) })
+								v, isV := core.ConstFloat(hf.Info(), y)
+								if !okO || !isV {
+									continue
+								}
+								if !at.Val {
+									op = negateCmp(op)
+								}
+								if (op == token.LSS && v <= 1) || (op == token.LEQ && v <= 1) {
+									okRet = true
+								}
+							}
+						}
+						if !okRet {
+							all = false
+						}
+					}
+					if all && nret > 0 {
+						clamp, stored = true, true
+					}
+				}
+				return true
+			})
+		}
 		c.Check("C18-R7", f.Key()+" min_p clamped to at most 1 before it is stored", c.Pos(f.Decl), clamp && stored, "with p > 1 the threshold exceeds the largest probability and minP cuts everything")
 	}
 	if f := c.Fn("C18-R7", "sample", "topK"); f != nil {
@@ -2673,44 +2778,44 @@ func ruleDownloadEntryLifecycle(c *Ctx, rule string) {
 	g := c.G(f)
 	loads := g.FindCalls("sync.Map.LoadOrStore")
 	c.Expect(rule, "LoadOrStore calls in downloadBlob", len(loads), 1)
-		for _, ld := range loads {
-			loaded := core.ResultVar(info, ld.Top, ld.Node.(*ast.CallExpr), 1)
-			if loaded == nil {
-				c.Violation(rule, f.Key()+" LoadOrStore loaded flag kept", c.Pos(ld.Node), "the loaded result is dropped")
+	for _, ld := range loads {
+		loaded := core.ResultVar(info, ld.Top, ld.Node.(*ast.CallExpr), 1)
+		if loaded == nil {
+			c.Violation(rule, f.Key()+" LoadOrStore loaded flag kept", c.Pos(ld.Node), "the loaded result is dropped")
+			continue
+		}
+		checked := 0
+		for _, cb := range g.CondBlocks() {
+			e := ast.Unparen(cb.Cond)
+			neg := false
+			if u, ok := e.(*ast.UnaryExpr); ok && u.Op == token.NOT {
+				neg = true
+				e = ast.Unparen(u.X)
+			}
+			id, ok := e.(*ast.Ident)
+			if !ok || info.Uses[id] != loaded {
 				continue
 			}
-			checked := 0
-			for _, cb := range g.CondBlocks() {
-				e := ast.Unparen(cb.Cond)
-				neg := false
-				if u, ok := e.(*ast.UnaryExpr); ok && u.Op == token.NOT {
-					neg = true
-					e = ast.Unparen(u.X)
+			checked++
+			fresh := 1 // false edge: !loaded
+			if neg {
+				fresh = 0
+			}
+			bad := g.MustPass(core.StartOf(cb.B.Succs[fresh]), func(nd ast.Node, l core.Loc) bool {
+				if gs, isGo := nd.(*ast.GoStmt); isGo && strings.HasSuffix(core.CalleeName(info, gs.Call), "blobDownload.Run") {
+					return true
 				}
-				id, ok := e.(*ast.Ident)
-				if !ok || info.Uses[id] != loaded {
-					continue
-				}
-				checked++
-				fresh := 1 // false edge: !loaded
-				if neg {
-					fresh = 0
-				}
-				bad := g.MustPass(core.StartOf(cb.B.Succs[fresh]), func(nd ast.Node, l core.Loc) bool {
-					if gs, isGo := nd.(*ast.GoStmt); isGo && strings.HasSuffix(core.CalleeName(info, gs.Call), "blobDownload.Run") {
+				for _, call := range core.CallsTo(info, nd, false, "sync.Map.Delete") {
+					if strings.Contains(core.ExprString(call.Fun), "blobDownloadManager") {
 						return true
 					}
-					for _, call := range core.CallsTo(info, nd, false, "sync.Map.Delete") {
-						if strings.Contains(core.ExprString(call.Fun), "blobDownloadManager") {
-							return true
-						}
-					}
-					return false
-				}, nil)
-				c.Check(rule, f.Key()+" new registry entry is started or removed on every path", c.Pos(cb.Cond), len(bad) == 0, exitList(c, bad, "return with a registered download that was neither started nor removed: every later pull of this digest waits on it for ever"))
-			}
-			c.Expect(rule, "tests of the loaded flag", checked, 1)
+				}
+				return false
+			}, nil)
+			c.Check(rule, f.Key()+" new registry entry is started or removed on every path", c.Pos(cb.Cond), len(bad) == 0, exitList(c, bad, "return with a registered download that was neither started nor removed: every later pull of this digest waits on it for ever"))
 		}
+		c.Expect(rule, "tests of the loaded flag", checked, 1)
+	}
 }
 
 func init() {
